@@ -206,7 +206,9 @@ def check_models(res, sc, genome, ctx, case):
                 for i in introns:
                     s = canon.intron_strand(genome[t["chr"]], i)
                     a = ann.get((t["chr"], i))
-                    if a and (len(a) > 1 or (s != "." and s not in a) or s == "."):
+                    # an intron annotated on one strand only takes that strand whatever the FASTA says (grey when
+                    # they disagree); annotated on both strands the annotation says nothing and the FASTA decides
+                    if a and len(a) == 1 and ((s != "." and s not in a) or s == "."):
                         conflict = True
                     fwd += s == "+"
                     rev += s == "-"
